@@ -317,7 +317,18 @@ def disconnection_explained(A, B, op):
         (u, v, q) = bad[0]
         return False, (f'Clipper returned the edge ({u[0] / 100.0}, {u[1] / 100.0}) - ({v[0] / 100.0}, {v[1] / 100.0}), which is not an edge of either flattened operand, next to the crossing '
                        f'({q[0]:.4f}, {q[1]:.4f}) of a straight edge with the other outline: that crossing was not pre-split on both operands')
-    return True, 'edges foreign to the flattened operands only away from crossings that involve a straight edge (curved x curved crossings, near misses within the flattening deviation)'
+    # ... and where two CURVED outlines cross, the unchanged code does split both operands within a unit or two of the crossing (310 of 310 crossings of 150
+    # random ellipse/circle pairs have a split node within 2 units on both operands): a curved crossing with no split node within 8 units on one of the
+    # operands was not found at all, or was split somewhere else -- not the recorded finding
+    split_nodes = [[q for _, pts in e['after'] for q in (pts[0], pts[-1])] for e in rec.split if e['after']]
+    if len(split_nodes) == 2:
+        cc = curved_crossings(A, B)
+        for q in cc:
+            far = [k for k, ns in enumerate(split_nodes) if min(math.hypot(q[0] - n_[0], q[1] - n_[1]) for n_ in ns) > 8.0]
+            if far and any(dist_to_edge(q, u, v) <= 8.0 for u, v in foreign):
+                return False, (f'the curved outlines cross at ({q[0]:.3f}, {q[1]:.3f}) but the {"receiver" if far[0] == 0 else "argument"} was not split within 8 units of that crossing '
+                               '(the unchanged code splits both operands within 2 units of every such crossing)')
+    return True, 'edges foreign to the flattened operands only away from crossings that involve a straight edge (curved x curved crossings that were pre-split nearby, near misses within the flattening deviation)'
 
 
 def thin_rect_pair(rng):
@@ -357,6 +368,27 @@ def corner_graze_pair(rng):
         cen = P(cen.x + u.x * L * (r - t), cen.y + u.y * L * (r - t)); circ = cg.Circle(R, origin=cen)
     A, B = (rect, circ) if rng.random() < 0.5 else (circ, rect)
     return A, B, {'kinds': ['rect', 'circle'] if A is rect else ['circle', 'rect'], 'config': 'transversal-corner-graze'}
+
+
+def curved_special_pair(rng):
+    """two curved shapes in special positions: (a) a node of one of them EXACTLY at the origin (a circle of radius R centred at (+-R, 0) or (0, +-R)) with the
+    partner crossing the segments next to that node; (b) a small circle / ellipse centred near the middle of one quadrant of a big circle, so that the same
+    curved segment is crossed twice"""
+    if rng.random() < 0.5:
+        R = float(rng.randint(30, 100)); ax = rng.choice([(1, 0), (-1, 0), (0, 1), (0, -1)])
+        A = cg.Circle(R, origin=P(ax[0] * R, ax[1] * R)) if rng.random() < 0.7 else cg.Ellipse(R, R * rng.uniform(0.6, 1.0), origin=P(ax[0] * R, 0.0) if ax[0] else P(0.0, ax[1] * R * 1.0))
+        if not any(abs(n_.x) == 0.0 and abs(n_.y) == 0.0 for s_ in A.asSegments() for n_ in (s_.start,)): A = cg.Circle(R, origin=P(ax[0] * R, ax[1] * R))
+        r2 = rng.uniform(0.5, 0.9) * R; ang = rng.uniform(0, 2 * math.pi); d = rng.uniform(0.6, 1.2) * r2
+        B = cg.Circle(r2, origin=P(d * math.cos(ang), d * math.sin(ang)))           # passes near the origin node
+        kind = 'transversal-origin-node'
+    else:
+        R = rng.uniform(70, 120); c = P(rng.uniform(-20, 20), rng.uniform(-20, 20)); A = cg.Circle(R, origin=c)
+        ang = math.radians(rng.choice([0, 90, 180, 270]) + rng.uniform(30, 60)); r2 = rng.uniform(12, 30)
+        o = P(c.x + R * math.cos(ang) + rng.uniform(-0.3, 0.3) * r2, c.y + R * math.sin(ang) + rng.uniform(-0.3, 0.3) * r2)
+        B = cg.Circle(r2, origin=o) if rng.random() < 0.5 else cg.Ellipse(r2, r2 * rng.uniform(0.5, 1.0), origin=o)
+        kind = 'transversal-quadrant-twice'
+    if rng.random() < 0.5: A, B = B, A
+    return A, B, {'kinds': ['circle', 'circle'], 'config': kind}
 
 
 def region_pair(rng):
@@ -532,6 +564,7 @@ def search(ctx):
     for i in range(ctx.n(12, 500)): pairs2.append(region_pair(rng))
     for i in range(ctx.n(8, 150)): pairs2.append(thin_rect_pair(rng))
     for i in range(ctx.n(8, 150)): pairs2.append(corner_graze_pair(rng))
+    for i in range(ctx.n(8, 150)): pairs2.append(curved_special_pair(rng))
     for A, B, m in pairs2:
         seed2 = rng.randrange(1 << 30)
         f, meas = check_region_sentence(A, B, m, seed2)
